@@ -134,6 +134,50 @@ func ruleC09Shared(p *Prog, a *Anchors, r *Report) {
 				}
 			}
 		}
+		if n == 0 {
+			// a helper that is handed the new context and the one it comes from (child.inheritRendering(parent)) sets it
+			for _, b := range f.Blocks {
+				for _, in := range b.Instrs {
+					c, ok := in.(*ssa.Call)
+					if !ok || c.Common().StaticCallee() == nil || c.Common().StaticCallee().Blocks == nil || !p.InPkg(c.Common().StaticCallee()) {
+						continue
+					}
+					g := c.Common().StaticCallee()
+					args := callArgs(c.Common())
+					for _, gb := range g.Blocks {
+						for _, gi := range gb.Instrs {
+							gs, ok := gi.(*ssa.Store)
+							if !ok || !isFieldAddrOf(gs.Addr, "ExecutionContext", field) {
+								continue
+							}
+							// the value: the same field of a parameter of g for which f passes one of its own parameters
+							base, bn, bfld := fieldLoadBase(gs.Val)
+							gp, isGP := base.(*ssa.Parameter)
+							if bn == nil || bn.Obj().Name() != "ExecutionContext" || bfld != field || !isGP {
+								continue
+							}
+							idx := indexOfParam(g, gp)
+							if idx < 0 || idx >= len(args) {
+								continue
+							}
+							if _, fromParam := stripLoad(args[idx]).(*ssa.Parameter); !fromParam {
+								continue
+							}
+							okAll := true
+							for _, ret := range returnsOf(f) {
+								if !MustPass(ret, func(x ssa.Instruction) bool { return x == ssa.Instruction(c) }) {
+									okAll = false
+								}
+							}
+							if okAll && want(gs.Val) {
+								r.OK(key, p.InstrPos(in), "%s (through %s)", okMsg, p.FuncName(g))
+								return
+							}
+						}
+					}
+				}
+			}
+		}
 		switch {
 		case n == 0:
 			r.Bad(key, p.Pos(f.Pos()), "%s does not set ExecutionContext.%s: %s", p.FuncName(f), field, badMsg)
@@ -364,6 +408,7 @@ func ruleC09Compl(p *Prog, a *Anchors, r *Report) {
 
 func ruleC09If(p *Prog, a *Anchors, r *Report) {
 	r.Begin("R-C09-IF", "if: the i-th body runs only when the i-th condition is true and ends the tag; the else body runs only after the last condition was false; firstof prints the first true argument and stops", 3)
+	ruleC09IfElseLast(p, a, r)
 	f := p.Method("tagIfNode", "Execute")
 	if f == nil {
 		r.Unk("anchor", "-", "anchor unresolved: (*tagIfNode).Execute")
